@@ -106,4 +106,37 @@ for (pid, mut), c in sorted(conf3.items()):
             meta['detected_by'] = prev['detected_by']
     json.dump(meta, open(old, 'w'), indent=1)
     n += 1
+# ROUND4: third batch (told all known changes of the property; asked for different kinds, possibly hidden inside a behaviour-preserving refactor)
+conf4 = {}
+if os.path.exists('/tmp/confirm4_all.log'):
+    for l in open('/tmp/confirm4_all.log'):
+        if l.startswith('{'):
+            d = json.loads(l)
+            conf4[(d['id'], d['mut'])] = d
+for (pid, mut), c in sorted(conf4.items()):
+    ok = c['applies'] == 'yes' and c['suite_with_change'] == 'pass' and c['demo_with_change'] == 'fail' and c['demo_without_change'] == 'pass'
+    if not ok:
+        print('skipping (not confirmed):', pid, mut, c)
+        continue
+    sid = '%s-r4%s' % (pid, mut[-1])
+    dst = os.path.join(V, 'seeded', sid)
+    os.makedirs(dst, exist_ok=True)
+    src = '/tmp/mut4/%s.out' % pid
+    shutil.copy(os.path.join(src, mut + '.diff'), os.path.join(dst, 'patch.diff'))
+    shutil.copy(os.path.join(src, mut + '_demo.rs'), os.path.join(dst, 'demo.rs'))
+    if os.path.exists(os.path.join(src, 'notes.md')):
+        shutil.copy(os.path.join(src, 'notes.md'), os.path.join(dst, 'author_notes.md'))
+    meta = {'id': sid, 'breaks_property': pid, 'summary': needs.get(sid, {}).get('summary', ''), 'needs_to_manifest': needs.get(sid, {}).get('needs', ''),
+            'written_by': 'independent sub-agent (fourth round: told every change already known for the property, asked to place the change outside src/range_proof.rs where possible), given only the property text and a scratch worktree',
+            'confirmed_here': {'how': 'MUTDIR=/tmp/mut4 tools/confirm_seeded.sh %s %s (scratch worktree of /repo HEAD, removed afterwards)' % (pid, mut),
+                               'patch_applies_to_repo_head': True, 'existing_suite_with_change': 'pass (26 unit + 4 integration + 1 doc test)',
+                               'demo_with_change': 'fails', 'demo_without_change': 'passes'},
+            'demo': 'demo.rs is an integration test: copy to /repo/tests/ and run cargo test --offline --test <name>'}
+    old = os.path.join(dst, 'meta.json')
+    if os.path.exists(old):
+        prev = json.load(open(old))
+        if 'detected_by' in prev:
+            meta['detected_by'] = prev['detected_by']
+    json.dump(meta, open(old, 'w'), indent=1)
+    n += 1
 print(n, 'seeded changes assembled')
